@@ -56,6 +56,10 @@ pub struct SimScenario {
     pub targets: Vec<u64>,
     /// entry addresses of functions that are never named in an installation (neighbours)
     pub bystanders: Vec<u64>,
+    /// (target index, bystander index): the target's original code is a tail-call forwarder
+    /// (`jmp bystander` / `b bystander`)
+    #[serde(default)]
+    pub forwarders: Vec<(usize, usize)>,
     pub lifetimes: Vec<Lifetime>,
     /// free-text classes used for the distinct-case measure
     pub classes: Vec<String>,
@@ -143,6 +147,7 @@ pub struct Layout {
     pub classes: Vec<String>,
     /// the single free page of a full-except-one neighbourhood
     pub hole: Option<u64>,
+    pub forwarders: Vec<(usize, usize)>,
 }
 
 fn align_of(arch: Arch) -> u64 {
@@ -340,7 +345,20 @@ pub fn gen_layout(rng: &mut Rng, arch: Arch, os: Os, pol: &PolicySpec, o: &Layou
             classes.push("hood-sparse".into());
         }
     }
-    Layout { text, foreign, targets, bystanders, classes, hole }
+    // some targets are tail-call forwarders to a bystander (their first instruction is a jump)
+    let mut forwarders = Vec::new();
+    if arch != Arch::Arm && !bystanders.is_empty() {
+        for ti in 0..targets.len() {
+            if rng.chance(1, 6) {
+                let bi = rng.below(bystanders.len() as u64) as usize;
+                forwarders.push((ti, bi));
+            }
+        }
+        if !forwarders.is_empty() {
+            classes.push("forwarder-target".into());
+        }
+    }
+    Layout { text, foreign, targets, bystanders, classes, hole, forwarders }
 }
 
 /// A fake address for x86-64 / A64: anywhere in the 64-bit space, biased to the rel32 boundary
@@ -419,7 +437,7 @@ fn page_size_for(rng: &mut Rng, arch: Arch, os: Os, vary: bool) -> u64 {
 
 fn kinds_for(arch: Arch) -> &'static [&'static str] {
     let _ = arch;
-    &["raw", "checked", "unchecked", "boolean"]
+    &["raw", "checked", "unchecked", "boolean", "raw", "checked", "unchecked", "boolean", "counted"]
 }
 
 /// Where the linux-faithful kernel will put the first trampoline for a target, if the generator
@@ -691,6 +709,7 @@ fn finish(
         foreign: l.foreign,
         targets: l.targets,
         bystanders: l.bystanders,
+        forwarders: l.forwarders,
         lifetimes,
         classes,
     }
